@@ -247,6 +247,50 @@ def gen_arc(rng):
                 sweep=span > 0, end=end), 'rot=%s' % rc
 
 
+def arc_from_angles(center, rx, ry, rot, th, span):
+    """constructor arguments of the arc with the given centre, radii, rotation (degrees), start angle th and
+    sweep span (degrees on the unit circle)"""
+    phi = math.radians(rot)
+
+    def pt(deg):
+        a = math.radians(deg)
+        return center + complex(rx * math.cos(a), ry * math.sin(a)) * complex(math.cos(phi), math.sin(phi))
+    return dict(start=pt(th), radius=complex(rx, ry), rotation=float(rot), large_arc=abs(span) > 180,
+                sweep=span > 0, end=pt(th + span))
+
+
+def wide_arc_corpus():
+    """arcs whose angle interval [theta, theta + delta] reaches beyond +-450 degrees: start near the 'left' end
+    of the ellipse (|theta| within 20 degrees of 180) and nearly a full turn in the direction that leaves the
+    interval (-180, 180]; the axis extremes at atan_x/atan_y +- 3 pi (k = +-3 in Arc.bbox) lie on them.
+    Both sweep flags, rotations 0/30/90/135/-60, circular and eccentric, ordinary scale."""
+    out = []
+    for rot in (0, 30, 90, 135, -60):
+        for rx, ry in ((5.0, 5.0), (4.7, 2.58), (2.0, 9.0)):
+            for th, span in ((170.0, 340.0), (-165.0, -330.0), (178.0, 359.9), (-160.0, -300.0), (162.0, 305.0),
+                             (-179.0, -350.0)):
+                out.append(('arc', arc_from_angles(complex(3, -2), rx, ry, rot, th, span),
+                            'corpus/wide-arc rot=%s' % rot))
+    # the witness of the seeded change C08_1, alone and inside a path
+    w = dict(start=-2.45 - 4.96j, radius=4.7 + 2.58j, rotation=90.0, large_arc=True, sweep=True, end=-3.79 - 2.98j)
+    out.append(('arc', w, 'corpus/wide-arc witness'))
+    out.append(('path', [('line', [-2.45 - 6j, -2.45 - 4.96j]), ('arc', w), ('line', [-3.79 - 2.98j, -1 + 0j])],
+                'corpus/wide-arc witness in path'))
+    return out
+
+
+def gen_wide_arc(rng):
+    """random member of the same class: |theta| in [160, 180], |delta| in [300, 359.9], sign(delta) = sign(theta)"""
+    sg = rng.choice([1, -1])
+    th = sg * rng.uniform(160, 180)
+    span = sg * rng.uniform(300, 359.9)
+    rot = rng.choice([0, 30, 90, 135, -60, rng.uniform(-180, 180), rng.uniform(-180, 180)])
+    rx = 10 ** rng.uniform(-0.5, 1.5)
+    ry = rx * rng.choice([1, 1, 0.55, 2, 0.2, 5, rng.uniform(0.2, 5)])
+    return arc_from_angles(rnd(rng, 50), rx, ry, rot, th, span), 'wide-arc rot=%s' % (
+        rot if isinstance(rot, int) else 'rand')
+
+
 # --------------------------------------------------------- implementation
 def make_seg(kind, data):
     from svgpathtools import Line, QuadraticBezier, CubicBezier, Arc
@@ -564,6 +608,13 @@ def run(rep, tier, seed, replay=None):
                 todo.append(('cubic', [p * sc for p in (0j, 3 + 4j, -2 + 4j, 1 + 0j)], 'corpus/loop@%s-units' % nm))
                 todo.append(('path', [('line', [-1 * sc + 0j, 0j]), ('cubic', [p * sc for p in (0j, 3 + 4j, -2 + 4j, 1 + 0j)]),
                                       ('quad', [p * sc for p in (1 + 0j, 2 - 3j, 3 + 0j)])], 'corpus/path@%s-units' % nm))
+            # always first: arcs reaching beyond +-450 degrees (k = +-3), then a random family of the same class
+            # drawn from its own stream (so that its size does not depend on the main case stream)
+            todo[:0] = wide_arc_corpus()
+            wrng = common.mkrng(seed, 'C08-wide-arcs')
+            for _ in range(48 if tier == 'quick' else 1000):
+                d, m = gen_wide_arc(wrng)
+                todo.append(('arc', d, m))
             for _ in range(n):
                 todo.append(gen_case(rng))
         cases, meta = [], []
